@@ -100,3 +100,20 @@ def tree_vocabulary(atom):
         name = "add_data_point_to_node" if atom[1].startswith("add") else "remove_data_point_from_node"
         return (atom[0], name, atom[2], (atom[3][0], Poly.atom(OUTLIER).key()), ())
     return None
+
+
+def outliers_last(atom):
+    """`t.add_data_point_to_outliers(x)` and `t.add_subtree(s, parent)` touch disjoint parts of the tree (the outlier list /
+    the graph, the clones' data and the index maps — decided by the reference semantics, TS): a tree built by the one
+    then the other is the tree built the other way round.  Normal form: the outlier additions come last."""
+    from ..termflow import key_atom, _is_polykey, Poly
+
+    if atom[0] != "upd" or atom[1] != "add_subtree" or not _is_polykey(atom[2]):
+        return None
+    inner = key_atom(atom[2])
+    if inner is None or inner[0] != "upd" or inner[1] != "add_data_point_to_outliers" or not _is_polykey(inner[2]):
+        return None
+    moved = ("upd", "add_subtree", inner[2]) + tuple(atom[3:])
+    again = outliers_last(moved)
+    moved_p = again if isinstance(again, Poly) else Poly.atom(moved if again is None else again)
+    return Poly.atom(("upd", "add_data_point_to_outliers", moved_p.key()) + tuple(inner[3:]))
